@@ -299,10 +299,41 @@ package service
 //@   requires validElem(e)
 //@   ensures result == matches(e, clientIP)
 
+// Ghost sequence view of container/list (see /verif/contracts/assumed/list.contract).
+//@ ghost field list.List.n int
+//@ ghost field list.List.at map[int]ref
+//@ ghost field list.Element.pos int
+//@ ghost field list.Element.owner ref
+//@ pred listElemWF(e *list.Element) := e != nil && e.owner != nil && 0 <= e.pos && e.pos < ptr(e.owner, "*list.List").n && ptr(ptr(e.owner, "*list.List").at[e.pos], "*list.Element") == e
+//@ pred listWF(l *list.List) := l != nil && l.n >= 0 \
+//@    && (forall k int :: 0 <= k && k < l.n ==> l.at[k] != nil && ptr(l.at[k], "*list.Element").pos == k && ptr(ptr(l.at[k], "*list.Element").owner, "*list.List") == l)
+
+// Every element of the key list holds a valid *CipherEntry.
+//@ pred keyListOK(l *list.List) := listWF(l) && (forall k int :: 0 <= k && k < l.n ==> validElem(ptr(l.at[k], "*list.Element")))
+//@ lockinv[C01] cipherList.mu(cl) := keyListOK(cl.list)
+
+// SnapshotForClientIP: the snapshot has one slot per list element and every slot is filled with a
+// valid element (first the entries last used by this client IP, then the others). cntM(k) = number
+// of matching entries among the first k (a definitional assumption, stated after taking the lock).
 //@ func (*cipherList).SnapshotForClientIP
-//@   unverified counting proof over the container/list model not built yet
+//@   props C01 C18 C19
+//@   atomic
 //@   requires cl != nil
-//@   ensures forall i int :: 0 <= i && i < len(result) ==> validElem(result[i])
+//@   assume-at-lock uf_cntM_int(cl.list, clientIP, 0) == 0 && (forall k int :: 0 <= k && k < cl.list.n ==> \
+//@        uf_cntM_int(cl.list, clientIP, k + 1) == uf_cntM_int(cl.list, clientIP, k) + ite(matches(ptr(cl.list.at[k], "*list.Element"), clientIP), 1, 0))
+//@   loop 1 invariant heldw(cl.mu) == false && len(cipherArray) == atlock(cl.list.n) && cl.list == atlock(cl.list) && keyListOK(cl.list) \
+//@     && (e != nil ==> listElemWF(e) && ptr(e.owner, "*list.List") == cl.list) \
+//@     && 0 <= i && i <= ite(e != nil, e.pos, cl.list.n) && i == uf_cntM_int(cl.list, clientIP, ite(e != nil, e.pos, cl.list.n)) \
+//@     && (forall j int :: 0 <= j && j < i ==> validElem(cipherArray[j])) \
+//@     && (forall j int :: 0 <= j && j <= ite(e != nil, e.pos, cl.list.n) ==> uf_cntM_int(cl.list, clientIP, ite(e != nil, e.pos, cl.list.n)) <= uf_cntM_int(cl.list, clientIP, j) + ite(e != nil, e.pos, cl.list.n) - j)
+//@   loop 2 invariant len(cipherArray) == atlock(cl.list.n) && cl.list == atlock(cl.list) && keyListOK(cl.list) \
+//@     && (e != nil ==> listElemWF(e) && ptr(e.owner, "*list.List") == cl.list) \
+//@     && i == uf_cntM_int(cl.list, clientIP, cl.list.n) + ite(e != nil, e.pos, cl.list.n) - uf_cntM_int(cl.list, clientIP, ite(e != nil, e.pos, cl.list.n)) \
+//@     && 0 <= i \
+//@     && (forall j int :: 0 <= j && j < i ==> validElem(cipherArray[j])) \
+//@     && (forall j int :: 0 <= j && j <= cl.list.n ==> uf_cntM_int(cl.list, clientIP, cl.list.n) <= uf_cntM_int(cl.list, clientIP, j) + cl.list.n - j)
+//@   ensures[C01,snapshot-has-every-slot-filled] forall i int :: 0 <= i && i < len(result) ==> validElem(result[i])
+//@   ensures[C01,snapshot-size] len(result) == atlock(cl.list.n)
 
 //@ func (*cipherList).MarkUsedByClientIP
 //@   props C01 C18 C19
